@@ -97,14 +97,17 @@ func runRobustLex(rc *RunCtx) *Violation {
 	}
 	rc.agg.Worlds[defName]++
 	delims := runDelims(rc.seed)
-	nSessions := 1
+	maxSessions := 1
 	if simrt.Choose(4) == 1 {
-		nSessions = 2
-		rc.probe("two lexers of one definition alternated")
+		maxSessions = 2 + simrt.Choose(3)
+		rc.probe("several lexers of one definition, opened at different times and alternated")
 	}
 	var sessions []*lexSession
 	var faultKinds []string
-	for i := 0; i < nSessions; i++ {
+	// openSession creates one more lexer over the shared definition, at any point of the history
+	// (also after other lexers reached EOF or failed).
+	openSession := func() *Violation {
+		i := len(sessions)
 		x := ld.corpus[simrt.Choose(len(ld.corpus))]
 		if ld.delims {
 			x = instantiate(x, delims)
@@ -156,12 +159,9 @@ func runRobustLex(rc *RunCtx) *Violation {
 			rc.agg.Outcomes["lex-constructor-error"]++
 			s.state = 2
 			s.wantPost = 0
-			if s.lx == nil {
-				sessions = append(sessions, s)
-				continue
-			}
 		}
 		sessions = append(sessions, s)
+		return nil
 	}
 
 	var result *Violation
@@ -173,8 +173,24 @@ func runRobustLex(rc *RunCtx) *Violation {
 					live = append(live, s)
 				}
 			}
-			if len(live) == 0 {
+			canOpen := len(sessions) < maxSessions
+			if len(live) == 0 && !canOpen {
 				return
+			}
+			if canOpen && (len(live) == 0 || simrt.Choose(4) == 1) {
+				if len(sessions) > 0 {
+					for _, o := range sessions {
+						if o.state == 1 && o.post > 0 {
+							rc.probe("lexer opened after another lexer of the definition was called past EOF")
+							break
+						}
+					}
+				}
+				if v := openSession(); v != nil {
+					result = v
+					return
+				}
+				continue
 			}
 			s := live[simrt.Choose(len(live))]
 			d := s.d
@@ -265,7 +281,7 @@ func runRobustLex(rc *RunCtx) *Violation {
 		emitted += s.tokens
 		simrt.HashEvent(hashString(fmt.Sprintf("%d|%d|%d|%s", s.state, s.tokens, s.post, s.lastErr)))
 	}
-	rc.nontriv = emitted > 0 && (len(faultKinds) > 0 || sessions[0].state == 2 || nSessions == 2)
+	rc.nontriv = emitted > 0 && (len(faultKinds) > 0 || sessions[0].state == 2 || len(sessions) >= 2)
 	rc.keyAdd(defName, term, strings.Join(faultKinds, ","))
 	for _, s := range sessions {
 		rc.keyAdd(s.delivered())
